@@ -114,6 +114,9 @@ func (w *World) opCopyTo(h *StoreH, op Op) {
 	if w.Viol != nil {
 		return
 	}
+	fired := w.faultFired()
+	w.clearFaults() // everything below is the harness checking, not the call
+	_ = fired
 	what := fmt.Sprintf("CopyTo(flushEvery=%d) from s%d to disk %d", fe, h.ID, op.D)
 	// the source must be untouched whatever happened
 	if h.Disk >= 0 && w.judges(kind) {
@@ -130,6 +133,7 @@ func (w *World) opCopyTo(h *StoreH, op Op) {
 	}
 	if w.expectErr(kind, err, false, what) {
 		if w.judges(kind) && w.Viol == nil {
+			w.clearFaults()
 			w.auditStore(h, kind)
 		}
 		return
@@ -409,10 +413,21 @@ func junkTail(kind int, seed uint64, n int, img []byte, start int64) []byte {
 // the flush stack that must be recovered from it.
 func (w *World) CrashImage(di int, cs *CrashSpec) (img []byte, stack []MFlush) {
 	d := w.Disks[di]
-	base, pos, _ := imageAt(d, cs.Writes, cs.Torn)
+	base, pos, inFlight := imageAt(d, cs.Writes, cs.Torn)
 	img = append([]byte(nil), base...)
 	if cs.Junk > 0 {
-		img = append(img, junkTail(cs.Junk, cs.JunkSeed, cs.JunkLen, img, int64(len(img)))...)
+		junk := junkTail(cs.Junk, cs.JunkSeed, cs.JunkLen, img, int64(len(img)))
+		// The tail must stay junk: it may not happen to continue the write
+		// in flight (all root records end in the same magic bytes, so a
+		// torn copy of an older one could otherwise complete a record whose
+		// last bytes are missing, which would make that flush durable).
+		if inFlight != nil && inFlight.Kind == 'W' && len(junk) > 0 {
+			at := int64(len(base)) - inFlight.Off
+			if at >= 0 && at < int64(len(inFlight.Data)) && junk[0] == inFlight.Data[at] {
+				junk[0] ^= 0xff
+			}
+		}
+		img = append(img, junk...)
 	}
 	return img, w.Files[di].StackAt(pos)
 }
